@@ -71,6 +71,9 @@ func main() {
 	c.w.Exhaust = true
 	thorough := *tier == "thorough"
 	bs := bases(c.p)
+	if c.p.scoped { // the scoped stage differs from "postgres" in typeChanged only: the two bases with the types
+		bs = bs[:2]
+	}
 	c.w.Set("bases", len(bs))
 	total := 0
 	for bi, b := range bs {
@@ -459,6 +462,9 @@ func (c *ctx) multi(bi int, b Schema, cat []Edit, thorough bool) {
 	n := 900
 	if thorough {
 		n = 12000
+	}
+	if c.p.scoped {
+		n /= 3
 	}
 	var real []int
 	for i := range cat {
